@@ -166,8 +166,9 @@ def qdata (name : Str) (t : Str) (r : Cells) : Option QData :=
     let tag := (entryGet e "control" "tag").getD ""
     let tag := if tag = "upload" && entryGet e "control" "mediatype" = some "osm/*" then "osm" else tag
     -- Question.xml_control: calculate, or (calculate bind / trigger) without label or hint → no control
+    -- (a type-table `hint`, e.g. of `phone number`, counts as the question's hint)
     let hidden := t = "calculate".toList ||
-      ((has r "bind::calculate" || has r "trigger") && !hasLabelOrHint r)
+      ((has r "bind::calculate" || has r "trigger") && !(hasLabelOrHint r || entryHas e ""))
     some { name, bind, control := tagHasControl tag && !hidden, node := true, tag := tag.toList }
 
 inductive Cls where
